@@ -254,7 +254,18 @@ func newBedOnce(c *Ctx, name string, o BedOpts) (*Bed, error) {
 			addr = fmt.Sprintf("@verif_%d_%s_%d", os.Getpid(), name, ports[i])
 		}
 		b.L[kind] = addr
+		if kind == "udpmr" {
+			// UDP listener on the wildcard address with multi_routes: the response has to leave from the
+			// address the query was sent to. Clients talk to 127.0.0.2, which is not the address the
+			// kernel would pick by itself.
+			proto = "udp"
+			addr = fmt.Sprintf("0.0.0.0:%d", ports[i])
+			b.L[kind] = fmt.Sprintf("127.0.0.2:%d", ports[i])
+		}
 		fmt.Fprintf(&y, "  - tag: l_%s\n    protocol: %s\n    listen: \"%s\"\n", kind, proto, addr)
+		if kind == "udpmr" {
+			y.WriteString("    udp:\n      multi_routes: true\n")
+		}
 		if kind == "udp" && o.UdpRcvBuf > 0 {
 			fmt.Fprintf(&y, "    socket:\n      so_rcvbuf: %d\n", o.UdpRcvBuf)
 		}
@@ -475,7 +486,7 @@ func (b *Bed) Exchange(kind string, wire []byte, o xOpts) xResult {
 	}
 	addr := b.L[kind]
 	switch kind {
-	case "udp":
+	case "udp", "udpmr":
 		c, err := dnsclient.DialUDP(o.LocalIP, addr)
 		if err != nil {
 			return xResult{Err: err}
